@@ -125,10 +125,19 @@ class Unit(UnitBase):
     def __rlshift__(self, other):
         return Quantity(other, self)
 
-    def is_equivalent(self, other):
+    def is_equivalent(self, other, equivalencies=None):
+        """convertibility - which, unlike `physical_type`, honours the equivalencies enabled process-wide: under
+        `u.set_enabled_equivalencies(u.dimensionless_angles())` angles (and powers of angles) count as dimensionless.  Whether that
+        is in force is an arbitrary but fixed fact of the process: an uninterpreted constant"""
         if isinstance(other, str):
             other = _lookup(other)
-        return self.dims == other.dims
+        if self.dims == other.dims:
+            return True
+        if equivalencies is not None:
+            vprim.unsupported('is_equivalent with explicit equivalencies')
+        if len(self.dims) == 2 and len(other.dims) == 2 and self.dims[1] == 0 and other.dims[1] == 0:
+            return vprim.uf('astropy_dimensionless_angles_enabled', 'bool')
+        return False
 
     def to(self, other, value=1.0):
         other = _as_unit(other)
@@ -378,6 +387,11 @@ class Quantity:
         unit = _as_unit(unit)
         if self.unit.dims != unit.dims:
             raise UnitConversionError(f'{self.unit.name} and {unit.name} are not convertible')
+        base = self.__dict__.get('_view_of')
+        if base is not None and not (unit == self.unit):
+            # this object is a reshaped VIEW of `base` (np.atleast_1d of a scalar): the shared buffer is rescaled in place, so the
+            # base - which keeps its own unit - now holds the rescaled numbers
+            base.si = base.si * (self.unit.scale / unit.scale)
         self.unit = unit          # in place, as astropy does: every holder of this object sees the new unit
         return self
 
@@ -451,7 +465,10 @@ class Quantity:
         return self._from_si(np.pad(self.si, pad_width, mode='constant'), self.unit)
 
     def _np_atleast_1d(self):
-        return self._from_si(np.atleast_1d(self.si), self.unit)
+        q = self._from_si(np.atleast_1d(self.si), self.unit)
+        if not vprim.is_array(self.si):
+            q._view_of = self         # numpy reshapes a 0-d array into a 1-d view of the same buffer
+        return q
 
     def _np_hypot(self, other):
         return self._from_si(np.hypot(self.si, self._same_dims(other, 'hypot')), self.unit)
